@@ -9,10 +9,10 @@ use crate::rulegen::TGen;
 use crate::val;
 use serde_json::{json, Value as J};
 
-pub const KINDS: [&str; 8] = ["valid", "cycle", "mut-rules", "mut-data", "adversarial", "mut-template", "deep", "mut-both"];
+pub const KINDS: [&str; 10] = ["valid", "cycle", "mut-rules", "mut-data", "adversarial", "mut-template", "deep", "mut-both", "adv-yaml", "known-invalid"];
 
 /// hand-written shapes the parser accepts and the evaluator has few tests for
-const ADVERSARIAL: [&str; 46] = [
+const ADVERSARIAL: [&str; 50] = [
     "let x = \"lit\"\nrule r { %x !empty }",
     "let x = [1, 2]\nrule r { %x exists\n %x is_list }",
     "let x = 5\nrule r { %x == 5\n %x is_int\n %x empty }",
@@ -59,6 +59,10 @@ const ADVERSARIAL: [&str; 46] = [
     "let s = substring(a, 0, b[ x == 5 ])\nrule r { %s exists }",
     "let s = regex_replace(a, b[ x == 5 ], \"y\")\nrule r { %s exists }",
     "let s = regex_replace(a, \"y\", a[ x == 5 ])\nrule r { %s exists }",
+    "let x = %x\nrule r { %x exists }",
+    "let a1 = %b1\nlet b1 = %a1.c\nrule r { %a1 exists }",
+    "rule r {\n  let v = %v\n  %v exists\n}",
+    "let c = count(%c)\nrule r { %c == 0 }",
 ];
 
 const ADV_DOCS: [&str; 10] = [
@@ -73,6 +77,58 @@ const ADV_DOCS: [&str; 10] = [
     "{\"a\":\"日本語のテキスト\",\"b\":\"😀😀😀\"}",
     "{\"a\":null,\"b\":true,\"c\":1.5e300}",
 ];
+
+/// YAML the loaders have few tests for (data files, parameter files, test inputs, templates)
+const ADV_YAML: [&str; 34] = [
+    "# only a comment\n",
+    "\n\n",
+    "---\n",
+    "---\n...\n",
+    "--- \n# c\n",
+    "a: 1\n---\nb: 2\n",
+    "a: !Cidr [1, 2]\n",
+    "a: !MyTag\n  - 1\n  - 2\n",
+    "a: ! [1, 2]\n",
+    "a: !Unknown {k: v}\n",
+    "a: !Unknown scalar\n",
+    "a: !!seq [1]\nb: !!map {k: v}\nc: !!str 5\nd: !!int '7'\n",
+    "a: !<tag:yaml.org,2002:str> x\n",
+    "a: &x [1, 2]\nb: *x\nc: *x\n",
+    "a: &x {k: 1}\nb:\n  <<: *x\n  j: 2\n",
+    "a: *undefined\n",
+    "a: &x\n  b: *x\n",
+    "? [complex, key]\n: value\n",
+    "? {k: v}\n: 1\n",
+    "1: a\ntrue: b\nnull: c\n1.5: d\n",
+    "a: |\n  line1\n  line2\nb: >-\n  folded\n  text\nc: |+\n\n",
+    "a:\t1\n",
+    "\ta: 1\n",
+    "a: [1, 2\n",
+    "a: {k: v\n",
+    "a: 'unterminated\n",
+    "a: \"bad \\x escape\"\n",
+    "a: 1\na: 2\n",
+    "Resources:\n  r:\n    Type: !Ref T\n    Properties: !GetAtt [a, b, c]\n",
+    "a: !Sub\n  - '${x}'\n  - {x: 1}\nb: !Join [',', [a, b]]\nc: !GetAtt a.b.c\nd: !If [c, 1, 2]\n",
+    "a: !Ref\n",
+    "a: !GetAtt\n",
+    "\u{feff}a: 1\n",
+    "- 1\n- [2, [3, [4, [5]]]]\n- {a: {b: {c: {d: 1}}}}\n",
+];
+
+/// tails that make any rules text invalid (unbalanced braces, an operator without operand, an
+/// unterminated string, a token the grammar does not have)
+const INVALID_TAILS: [&str; 8] = [
+    "\n}\n",
+    "\n;;\n",
+    "\nrule zz {\n",
+    "\nrule zz { a == }\n",
+    "\nrule zz { a == \"abc }\n",
+    "\nrule zz { a exists } }\n",
+    "\nrule { a exists }\n",
+    "\nrule zz when { a exists }\n",
+];
+const HEADERS: [&str; 5] = ["", "\n\n\n", "# header comment\n# second line of it\n\n", "   \n\t\n# c\n", "#\n"];
 
 const UNI: [&str; 8] = ["é", "日本", "😀", "\u{200b}", "\u{feff}", "ß", "\u{0}", "\t"];
 const TOKENS: [&str; 24] = [
@@ -175,6 +231,8 @@ fn deep_json(depth: usize, list: bool) -> String {
 
 pub struct Case {
     pub kind: &'static str,
+    /// the rules text is invalid whatever parser looks at it
+    pub known_invalid: bool,
     pub rules: String,
     pub data: String,
     pub template: String,
@@ -209,6 +267,7 @@ pub fn case(seed: u64, i: usize) -> Case {
     let rules2 = render::render_file(&prog2);
     let data2 = val::to_json_text(&doc2);
     let mut template = template;
+    let mut known_invalid = false;
     match kind {
         "cycle" => {
             inject_cycle(&mut prog, &mut r);
@@ -230,6 +289,25 @@ pub fn case(seed: u64, i: usize) -> Case {
             }
         }
         "mut-template" => template = mutate_text(&template, &data, &mut r),
+        "adv-yaml" => {
+            data = ADV_YAML[r.below(ADV_YAML.len())].to_string();
+            if r.chance(1, 3) {
+                data.push_str(ADV_YAML[r.below(ADV_YAML.len())]);
+            }
+            template = format!("Resources:\n  r:\n    Type: T::U\n    Properties:\n      p: 1\n{}", ADV_YAML[r.below(ADV_YAML.len())]);
+            if r.chance(1, 2) {
+                rules = "rule r { a exists }\nrule s { this exists }\n".to_string();
+            }
+        }
+        "known-invalid" => {
+            // a valid text (sometimes with a comment / blank header) followed by a tail that no
+            // grammar accepts; the tail sometimes followed by more valid text
+            let base = if r.chance(1, 2) { rules.clone() } else { "rule first { a exists }\nrule second { b exists }\n".to_string() };
+            let tail = INVALID_TAILS[r.below(INVALID_TAILS.len())];
+            let more = if r.chance(1, 3) { "rule last { c exists }\n" } else { "" };
+            rules = format!("{}{}{}{}", HEADERS[r.below(HEADERS.len())], base, tail, more);
+            known_invalid = true;
+        }
         "deep" => {
             // nesting depth bounded (the property's proviso): up to 60 levels
             let d = 5 + r.below(56);
@@ -238,5 +316,5 @@ pub fn case(seed: u64, i: usize) -> Case {
         }
         _ => {}
     }
-    Case { kind, rules, data, template }
+    Case { kind, known_invalid, rules, data, template }
 }
